@@ -42,7 +42,14 @@ impl Driver {
                 match successor.type_().clone() {
                     SuccessorType::FallThrough => {
                         let locations = location.forward()?;
-                        if locations.len() == 1 {
+                        // A single successor is only taken unconditionally when
+                        // it is not a guarded edge.
+                        let unguarded = locations.len() == 1
+                            && locations[0]
+                                .edge()
+                                .map(|edge| edge.condition().is_none())
+                                .unwrap_or(true);
+                        if unguarded {
                             Ok(Driver::new(
                                 self.program.clone(),
                                 locations[0].clone().into(),
@@ -117,7 +124,12 @@ impl Driver {
             }
             il::RefFunctionLocation::EmptyBlock(_) => {
                 let locations = location.forward()?;
-                if locations.len() == 1 {
+                let unguarded = locations.len() == 1
+                    && locations[0]
+                        .edge()
+                        .map(|edge| edge.condition().is_none())
+                        .unwrap_or(true);
+                if unguarded {
                     return Ok(Driver::new(
                         self.program.clone(),
                         locations[0].clone().into(),
